@@ -21,7 +21,10 @@ pub const SLACK_Q_ABS: f64 = 0.002;
 /// above nominal, a one-order-statistic conservative interval may exceed the level by this much
 pub const SLACK_Q_ABOVE_PMF: f64 = 1.5;
 
-fn judge_proportion(n: usize, seed: u64, l: &mut Local) {
+/// entry points through which the interval of an outcome k is obtained
+pub const FRONTS: [&str; 4] = ["proportion::ci(n, k)", "ci_wilson_ratio(n, k/n)", "Stats fed in batches (extend x2, add_*, extend) .ci", "ci_true(data)"];
+
+fn judge_proportion(n: usize, seed: u64, front: usize, l: &mut Local) {
     // intervals for every outcome, per confidence
     // Call order matters for an implementation with hidden state (caches keyed on part of the
     // confidence): for even n all kinds are queried per outcome k and level in turn (lower, two-sided,
@@ -32,9 +35,46 @@ fn judge_proportion(n: usize, seed: u64, l: &mut Local) {
             table.push((kind, level, vec![None; n + 1]));
         }
     }
+    l.count_s(format!("front-end:{}", FRONTS[front]));
+    // the sample behind outcome k for the data-taking front-ends: k successes spread over n trials
+    let data = |k: usize| -> Vec<bool> { (0..n).map(|i| (i * k) / n != ((i + 1) * k) / n).collect() };
     let ask = |kind: Kind, level: f64, k: usize, l: &mut Local| -> Option<Obs> {
         l.eval();
-        match call(|| proportion::ci(conf(kind, level), n, k)) {
+        let c = conf(kind, level);
+        let out = match front {
+            0 => call(|| proportion::ci(c, n, k)),
+            1 => {
+                if k == 0 {
+                    // a success ratio of 0 is outside the documented domain of the ratio front-end: no interval
+                    return None;
+                }
+                call(|| proportion::ci_wilson_ratio(c, n, k as f64 / n as f64))
+            }
+            2 => {
+                let d = data(k);
+                let (a, b) = (n / 3, n / 2);
+                let mut st = proportion::Stats::default();
+                st.extend(&d[..a].to_vec());
+                st.extend(&d[a..b].to_vec());
+                for (j, x) in d[b..].iter().enumerate() {
+                    if j >= 5 {
+                        break;
+                    }
+                    if *x {
+                        st.add_success()
+                    } else {
+                        st.add_failure()
+                    }
+                }
+                st.extend(&d[(b + 5).min(n)..].to_vec());
+                call(|| st.ci(c))
+            }
+            _ => {
+                let d = data(k);
+                call(|| proportion::ci_true(c, &d))
+            }
+        };
+        match out {
             Out::Ok(i) => Some(Obs::of64(&i)),
             _ => None, // an error does not cover
         }
@@ -104,8 +144,8 @@ fn judge_proportion(n: usize, seed: u64, l: &mut Local) {
                 l.violation(
                     format!("proportion|coverage-below-nominal|{}|level={}", kind.name(), level),
                     format!("exact coverage of the {} {} proportion interval falls more than the documented slack below nominal", kind.name(), level),
-                    json!({"what": "proportion", "n": n}),
-                    json!({"n": n, "p": p, "kind": kind.name(), "level": level, "coverage": cov, "shortfall": short, "slack": slack, "max_pmf": maxp}),
+                    json!({"what": "proportion", "n": n, "front": front}),
+                    json!({"n": n, "front_end": FRONTS[front], "p": p, "kind": kind.name(), "level": level, "coverage": cov, "shortfall": short, "slack": slack, "max_pmf": maxp}),
                 );
             }
         }
@@ -114,14 +154,14 @@ fn judge_proportion(n: usize, seed: u64, l: &mut Local) {
         let avg = sums[ti] / ngrid as f64;
         l.eval();
         l.count("proportion average coverage judged");
-        l.nontrivial(mix(&[n as u64, *kind as u64, level.to_bits(), 12]));
+        l.nontrivial(mix(&[n as u64, *kind as u64, level.to_bits(), 12 + front as u64 * 1000]));
         l.max("proportion_avg_coverage_abs_dev", (avg - level).abs());
         if n >= 25 && (avg - level).abs() > SLACK_AVG {
             l.violation(
                 format!("proportion|average-coverage|{}|level={}|{}", kind.name(), level, if avg < *level { "below" } else { "above" }),
                 format!("average exact coverage of the {} {} proportion interval differs from nominal by more than {}", kind.name(), level, SLACK_AVG),
-                json!({"what": "proportion", "n": n}),
-                json!({"n": n, "kind": kind.name(), "level": level, "average_coverage": avg, "p_range": [plo, phi], "grid_points": ngrid}),
+                json!({"what": "proportion", "n": n, "front": front}),
+                json!({"n": n, "front_end": FRONTS[front], "kind": kind.name(), "level": level, "average_coverage": avg, "p_range": [plo, phi], "grid_points": ngrid}),
             );
         }
         if l.wants_sample(&format!("proportion:{}", kind.name())) && *level == 0.95 {
@@ -257,7 +297,7 @@ pub fn run(run: &Arc<Run>) {
         v
     };
     run.set_rule(format!(
-        "deterministic (the seed only shifts the grids): n in {:?}; proportion: the real proportion::ci(conf, n, k) for every outcome 0 <= k <= n (an Err counts as not covering), exact coverage C(p) = sum_k Bin(k;n,p)[p in CI(k)] on a 1601-point p-grid over n p, n(1-p) >= 10 plus the interval end points ± 1e-12; \
+        "deterministic (the seed only shifts the grids): n in {:?}; proportion: the real proportion::ci(conf, n, k) for every outcome 0 <= k <= n (an Err counts as not covering), and for a few further populations the same through ci_wilson_ratio(n, k/n), a Stats fed in batches, and ci_true on data, exact coverage C(p) = sum_k Bin(k;n,p)[p in CI(k)] on a 1601-point p-grid over n p, n(1-p) >= 10 plus the interval end points ± 1e-12; \
          quantile: the real quantile::ci_indices on a 197-point q-grid, coverage P(l+1 <= B <= u), B ~ Bin(n,q) (one-sided: P(B >= l+1), P(B <= u)); levels {:?} x 3 kinds. \
          Documented slack: pointwise {}*max-pmf + {}, average |avg - L| <= {} (n >= 25), quantile {}*max-pmf + {} below (and {}*max-pmf above). distinct = distinct (n, kind, level[, q]).",
         ns, LEVELS, SLACK_PT_PMF, SLACK_PT_ABS, SLACK_AVG, SLACK_Q_PMF, SLACK_Q_ABS, SLACK_Q_ABOVE_PMF
@@ -268,7 +308,7 @@ pub fn run(run: &Arc<Run>) {
         let mut l = run.local();
         let n = case["n"].as_u64().unwrap() as usize;
         if case["what"] == "proportion" {
-            judge_proportion(n, seed, &mut l);
+            judge_proportion(n, seed, case["front"].as_u64().unwrap_or(0) as usize, &mut l);
         } else {
             judge_quantile(n, seed, &mut l);
         }
@@ -276,19 +316,32 @@ pub fn run(run: &Arc<Run>) {
         return;
     }
     // largest first for load balance; proportion and quantile items interleaved
-    let mut items: Vec<(bool, usize)> = vec![];
+    let mut items: Vec<(usize, usize)> = vec![];
     for &n in ns.iter().rev() {
-        items.push((true, n));
-        items.push((false, n));
+        items.push((0, n));
+        items.push((9, n));
+    }
+    // the other front-ends: a user's outcome reaches the interval through them just as well. The ratio
+    // front-end on populations that are not round numbers (k/n*n need not give back k exactly).
+    let ratio_ns: Vec<usize> = if run.cfg.quick() { vec![1337, 642, 321, 107, 57] } else { vec![2621, 1337, 999, 642, 321, 214, 107, 93, 57, 49] };
+    let batch_ns: Vec<usize> = if run.cfg.quick() { vec![400, 200, 107, 75, 30] } else { vec![1000, 600, 400, 250, 200, 107, 75, 50, 30] };
+    let data_ns: Vec<usize> = if run.cfg.quick() { vec![100, 40] } else { vec![300, 100, 64, 40] };
+    for (f, v) in [(1usize, &ratio_ns), (2, &batch_ns), (3, &data_ns)] {
+        for &n in v.iter() {
+            items.push((f, n + (seed % 3) as usize));
+        }
     }
     run.par(items.len() as u64, |i, l| {
-        let (prop, n) = items[i as usize];
-        if prop {
-            judge_proportion(n, seed, l)
+        let (front, n) = items[i as usize];
+        if front < 9 {
+            judge_proportion(n, seed, front, l)
         } else {
             judge_quantile(n, seed, l)
         }
     });
+    let fr: Vec<String> = FRONTS.iter().map(|f| format!("front-end:{}", f)).collect();
+    let fr: Vec<&str> = fr.iter().map(|s| s.as_str()).collect();
+    run.require(&fr);
     run.require(&["proportion average coverage judged", "quantile coverage judged", "proportion: kinds interleaved at the same level", "quantile coverage through the data-taking entry point"]);
     let _: Option<Value> = None;
 }
